@@ -291,6 +291,7 @@ var mappingKeywordSpaceDoc = prettier.Text("mapping ")
 var includeKeywordSpaceDoc = prettier.Text("include ")
 var mappingStartDoc prettier.Doc = prettier.Text("{")
 var mappingEndDoc prettier.Doc = prettier.Text("}")
+var mappingEmptyDoc prettier.Doc = prettier.Text("{}")
 
 func (d *EntitlementMappingDeclaration) Doc(ctx PrettyContext) prettier.Doc {
 	// Wrap only the header (access + entitlement + mapping + name) in a Group
@@ -336,6 +337,15 @@ func (d *EntitlementMappingDeclaration) Doc(ctx PrettyContext) prettier.Doc {
 			elementsDocs,
 			elementDoc,
 		)
+	}
+
+	// NOTE: prettier.Join returns nil if there are no elements
+	if len(elementsDocs) == 0 {
+		return ctx.Wrap(d, prettier.Concat{
+			prettier.Group{Doc: headerDoc},
+			prettier.Space,
+			mappingEmptyDoc,
+		})
 	}
 
 	return ctx.Wrap(d, prettier.Concat{
